@@ -3,6 +3,8 @@
    Statements only. *)
 From Coq Require Import ZArith List Bool.
 From CP Require Import Core.Bytes Core.Result Frame.LVFrame Frame.Units Opp.Rdp Lemmas.UnitLemmas Lemmas.UnitInstances Lemmas.OppLemmas.
+From CP Require Import Spec.Registry Lemmas.RegistryTables.
+From CPGen Require Import Tables.
 Open Scope Z_scope.
 
 (* the message type on the wire is the type of the class that accepted the PDU *)
@@ -27,3 +29,9 @@ Theorem C09_openvpn_tcp : frame_unit_ok parse_ovpn_tcp compose_ovpn_tcp always (
 Proof. exact ovpn_unit. Qed.
 Theorem C09_postgresql_sslrequest : frame_unit_ok parse_pg_sslrequest compose_pg_sslrequest always (lv_declared 8 zero_plen).
 Proof. exact pg_sslrequest_unit. Qed.
+
+(* MySQL capability and status bits, OpenVPN opcodes, COTP PDU types, RDP negotiation types / protocols / flags and LDAP
+   result codes of the live library are those of their specifications *)
+Theorem C09_code_points_match_registry :
+  registry_agrees int_enum_members opp_registry = true /\ registry_covers int_enum_members opp_registry = true.
+Proof. exact opp_code_points. Qed.
